@@ -276,6 +276,11 @@ func (matrix *DenseReal64Matrix) T() Matrix {
 }
 func (matrix *DenseReal64Matrix) Tip() {
   mn := len(matrix.values)
+  if matrix.rows*matrix.cols != mn {
+    // the cycle-following permutation below assumes that the matrix
+    // owns its whole storage, on a slice it would never terminate
+    panic("Tip(): cannot transpose a slice of a larger matrix in place")
+  }
   visited := make([]bool, mn)
   k := 0
   for cycle := 1; cycle < mn; cycle++ {
